@@ -15,6 +15,8 @@ package pkg
 //@   ensures [C09:same-as-validate-compiles] result1 == compileErr(profileText) && (result1 == nil ==> result0 != nil && deref(result0) == compiledQuery(profileText))
 
 //@ func Validate(profileText string, jsonldText string, debug bool, eventChan *chan e.Event) (string, error)
+//@   requires [C04:not-yet] !ldRejected
+//@   ensures [C04:jsonld-rejected-no-verdict] ldRejected ==> (result1 != nil && result0 == "")
 //@   requires [C08:not-yet] !opaRejected && !opaEvaluated
 //@   ensures [C08:nothing-evaluated] opaRejected ==> (result1 != nil && result0 == "" && !opaEvaluated)
 //@   requires [C11:fresh] eventChan != nil ==> (chanClosed == 0 && !evOpen && evNext == 0)
@@ -22,11 +24,15 @@ package pkg
 //@   ensures [C04:no-verdict] !jsonTextValid(jsonldText) ==> (result1 != nil && result0 == "")
 
 //@ func ValidateCompiled(compiledRegoPtr *rego.PreparedEvalQuery, jsonldText string, debug bool, eventChan *chan e.Event) (string, error)
+//@   requires [C04:not-yet] !ldRejected
+//@   ensures [C04:jsonld-rejected-no-verdict] ldRejected ==> (result1 != nil && result0 == "")
 //@   requires [C11:compiled] eventChan != nil ==> (chanClosed == 0 && !evOpen && evNext == 3)
 //@   ensures [C11:closed-once] eventChan != nil ==> chanClosed == old(chanClosed) + 1
 //@   ensures [C04:no-verdict] !jsonTextValid(jsonldText) ==> (result1 != nil && result0 == "")
 
 //@ func ValidateWithConfiguration(profileText string, jsonldText string, debug bool, eventChan *chan e.Event, validationConfig c.ValidationConfiguration, reportConfig c.ReportConfiguration) (string, error)
+//@   requires [C04:not-yet] !ldRejected
+//@   ensures [C04:jsonld-rejected-no-verdict] ldRejected ==> (result1 != nil && result0 == "")
 //@   requires [C08:not-yet] !opaRejected && !opaEvaluated
 //@   ensures [C08:nothing-evaluated] opaRejected ==> (result1 != nil && result0 == "" && !opaEvaluated)
 //@   requires [C11:fresh] eventChan != nil ==> (chanClosed == 0 && !evOpen && evNext == 0)
@@ -35,6 +41,8 @@ package pkg
 //@   ensures [C09:equivalent-to-precompiled] compileErr(profileText) == nil ==> (result0 == libCompiledReport(compiledQuery(profileText), jsonldText, validationConfig, reportConfig) && result1 == libCompiledReportErr(compiledQuery(profileText), jsonldText, validationConfig, reportConfig))
 
 //@ func ValidateCompiledWithConfiguration(compiledRegoPtr *rego.PreparedEvalQuery, jsonldText string, debug bool, eventChan *chan e.Event, validationConfig c.ValidationConfiguration, reportConfig c.ReportConfiguration) (string, error)
+//@   requires [C04:not-yet] !ldRejected
+//@   ensures [C04:jsonld-rejected-no-verdict] ldRejected ==> (result1 != nil && result0 == "")
 //@   requires [C11:compiled] eventChan != nil ==> (chanClosed == 0 && !evOpen && evNext == 3)
 //@   ensures [C11:closed-once] eventChan != nil ==> chanClosed == old(chanClosed) + 1
 //@   ensures [C04:no-verdict] !jsonTextValid(jsonldText) ==> (result1 != nil && result0 == "")
